@@ -90,12 +90,14 @@ def delegated_calls(fn, names):
 
 
 def f1_f2(run, project):
-    targets = {"Binary.marshal", "Hex.marshal", "Pcapng.marshal", "marshal"}
+    """every path of every front-end (module function and facade) that does not refuse ends by delegating once to the
+    next layer with tpm_type / root_path / command_code / **kwargs unchanged and its own byte stream as buffer, and
+    returns the delegated generator's value - on path summaries, so it does not matter whether the callee is written
+    out, picked through a class variable or through a function variable"""
     sites = []
     for modname in FRONTENDS:
         mod = project.module(modname)
-        fn = mod.function("marshal")
-        sites.append((mod, "marshal", fn, {"Binary.marshal", "Hex.marshal", "Pcapng.marshal"}))
+        sites.append((mod, "marshal", mod.function("marshal"), {"Binary.marshal", "Hex.marshal", "Pcapng.marshal"}))
     for modname, cls in FACADES:
         mod = project.module(modname)
         fn = mod.functions().get(f"{cls}.marshal")
@@ -103,57 +105,57 @@ def f1_f2(run, project):
             raise AnalysisError(f"F1: {modname}.{cls}.marshal not found")
         sites.append((mod, f"{cls}.marshal", fn, {"marshal"}))
     for mod, q, fn, names in sites:
-        calls = delegated_calls(fn, names)
-        run.require(bool(calls), f"F1: {mod.name}.{q} delegates to nothing")
-        for c in calls:
-            tag = f"{mod.name.split('.', 2)[-1]}.{q} -> {call_name(c)}"
+        ps = [p for p in paths.Summariser(mod, fn).paths() if p.end != "raise"]
+        run.require(bool(ps), f"F1: {mod.name}.{q} has no completing path")
+        kwname = fn.args.kwarg.arg if fn.args.kwarg else None
+        n_del = 0
+        for p in ps:
+            lab = " & ".join(("" if v else "not ") + a[-40:] for a, v, _ in p.cond) or "always"
+            dels = [(k, e, n) for k, e, n in p.effects if k == "yieldfrom" and isinstance(e, ast.Call) and call_name(e) in names]
+            plain = p.end == "return" and isinstance(p.value, ast.Call) and call_name(p.value) in names
+            c = dels[0][1] if dels else (p.value if plain else None)
+            tagq = f"{mod.name.split('.', 2)[-1]}.{q}"
+            if c is None or len(dels) > 1:
+                run.ob("F1", False, f"{tagq} [{lab}]: delegates once", f"the path [{lab}] of {q} delegates to "
+                       f"{[call_name(e) for _k, e, _n in p.effects if _k == 'yieldfrom' and isinstance(e, ast.Call)]} - not exactly one "
+                       f"of {sorted(names)}", module=mod, node=p.node or fn, func=q, construct=f"{q} delegation")
+                continue
+            n_del += 1
+            tag = f"{tagq} -> {call_name(c)}"
             pos = [norm(a) for a in c.args]
-            kws = {k.arg: norm(k.value) for k in c.keywords if k.arg}
+            kws = {k.arg: paths.text(k.value) for k in c.keywords if k.arg}
             star = [norm(k.value) for k in c.keywords if k.arg is None]
             tt = kws.get("tpm_type", pos[0] if pos else None)
-            run.ob("F1", tt == "tpm_type", f"{tag}: tpm_type forwarded", f"tpm_type is passed as `{tt}`", module=mod, node=c, func=q,
-                   construct=f"{call_name(c)}(tpm_type)")
+            run.ob("F1", tt == "tpm_type", f"{tag}: tpm_type forwarded", f"tpm_type is passed as `{tt}`", module=mod, node=p.node or fn,
+                   func=q, construct=f"{call_name(c)}(tpm_type)")
             for k in ("root_path", "command_code"):
                 run.ob("F1", kws.get(k) == k, f"{tag}: {k} forwarded", f"{k} is {'dropped' if k not in kws else 'passed as ' + kws[k]}",
-                       module=mod, node=c, func=q, construct=f"{call_name(c)}({k})")
-            kwname = fn.args.kwarg.arg if fn.args.kwarg else None
+                       module=mod, node=p.node or fn, func=q, construct=f"{call_name(c)}({k})")
             run.ob("F1", kwname is not None and star == [kwname], f"{tag}: **kwargs forwarded (mode, encryption flag)",
-                   f"extra keyword arguments are {'not forwarded' if not star else star}", module=mod, node=c, func=q,
+                   f"extra keyword arguments are {'not forwarded' if not star else star}", module=mod, node=p.node or fn, func=q,
                    construct=f"{call_name(c)}(**kwargs)")
             buf = kws.get("buffer", pos[1] if len(pos) > 1 else None)
-            # buffer: the module's own scanner output, or the unchanged buffer for facades
+            binds = {norm(e_.targets[0]): paths.text(e_.value) for k_, e_, _n in p.effects if k_ == "bind" and isinstance(e_, ast.Assign)}
+            buf = binds.get(buf, buf)  # a generator object bound to a local: what it was built from
             if q == "marshal":
-                V = FnView(mod, fn)
-                bexpr = kwarg(c, "buffer") or (c.args[1] if len(c.args) > 1 else None)
-                src = V.resolve(bexpr, c) if bexpr is not None else None
-                ok = isinstance(src, ast.Call) and any(norm(a) in ("buffer", "file") or "buffer" in norm(a) for a in ast.walk(src) if isinstance(a, ast.Name)) \
-                    or (isinstance(src, ast.Name) and src.id in ("buffer", "format_buffer_iter"))
-                if isinstance(src, ast.Name) and src.id == "format_buffer_iter":
-                    d = V.resolve(ast.Name(id="format_buffer_iter", ctx=ast.Load()), c)
-                run.ob("F1", ok, f"{tag}: buffer is this front-end's byte stream", f"buffer is `{norm(src) if src is not None else None}`",
-                       module=mod, node=c, func=q, construct=f"{call_name(c)}(buffer)")
+                ok = buf is not None and buf != "buffer" and "buffer" in buf and "(" in buf
+                run.ob("F1", ok, f"{tag}: buffer is this front-end's byte stream", f"buffer is `{buf}`", module=mod, node=p.node or fn,
+                       func=q, construct=f"{call_name(c)}(buffer)")
             else:
-                run.ob("F1", buf == "buffer", f"{tag}: buffer forwarded", f"buffer is `{buf}`", module=mod, node=c, func=q,
+                run.ob("F1", buf == "buffer", f"{tag}: buffer forwarded", f"buffer is `{buf}`", module=mod, node=p.node or fn, func=q,
                        construct=f"{call_name(c)}(buffer)")
             # F2: the value of the delegated generator is returned
-            p = c._parent
-            ok = False
-            if isinstance(p, ast.Return):
-                ok = True  # plain function returning the generator object
-            elif isinstance(p, ast.YieldFrom):
-                st = p._parent
-                if isinstance(st, ast.Return):
-                    ok = True
-                elif isinstance(st, ast.Assign) and isinstance(st.targets[0], ast.Name):
-                    v = st.targets[0].id
-                    # a `return v` must follow on every path
-                    cfg = CFG(fn)
-                    node = cfg.node_of(st)
-                    ok = all_paths_return(cfg, node, v)
-            run.ob("F2", ok, f"{tag}: returns the decoded object of the delegated generator",
+            if plain:
+                ok2 = True
+            else:
+                idx = [i for i, (k, _e, _n) in enumerate(p.effects) if k == "yieldfrom"].index(
+                    next(i for i, (k, e, _n) in enumerate(p.effects) if k == "yieldfrom" and e is c))
+                ok2 = p.end == "return" and p.value_text() in (f"_yf{idx}", "<value of the delegated generator>")
+            run.ob("F2", ok2, f"{tag}: returns the decoded object of the delegated generator",
                    "the front-end drops the return value of the decoder it delegates to (Generator(...).value is None; "
-                   "`tpmstream type` and Canonical.object then fail on this input format)", module=mod, node=c, func=q,
+                   "`tpmstream type` and Canonical.object then fail on this input format)", module=mod, node=p.node or fn, func=q,
                    construct=f"return value of {call_name(c)}(...)")
+        run.require(n_del >= 1, f"F1: {mod.name}.{q} delegates to nothing")
 
 
 def all_paths_return(cfg, node, var):
@@ -182,83 +184,79 @@ def hex_alphabets(mod):
 
 
 def f3(run, project):
+    """every int(x, 16) only sees bytes that were tested against a hex alphabet on that path (path summaries): an operand
+    bound from the input on this path needs `operand in ALPHABET` true on the path; an operand that is scanner state carried
+    between iterations must start empty and only ever be reset or extended by a validated byte"""
     n = 0
     for modname in (HEX, SWTPM, AUTO, PCAP):
         mod = project.module(modname)
         alph = hex_alphabets(mod)
         for q, fn in mod.functions().items():
-            convs = [c for c in walk_no_nested(fn) if isinstance(c, ast.Call) and call_name(c) == "int" and len(c.args) == 2
-                     and isinstance(c.args[1], ast.Constant) and c.args[1].value == 16]
-            if not convs:
+            if not any(isinstance(c, ast.Call) and call_name(c) == "int" and len(c.args) == 2 and isinstance(c.args[1], ast.Constant)
+                       and c.args[1].value == 16 for c in walk_no_nested(fn)):
                 continue
-            V = FnView(mod, fn)
-            for c in convs:
-                n += 1
-                names = [x.id for x in ast.walk(c.args[0]) if isinstance(x, ast.Name)]
-                bad = []
-                for v in dict.fromkeys(names):
-                    if not validated(V, c, v, alph):
-                        bad.append(v)
-                run.ob("F3", not bad, f"{modname.split('.')[-2]}.{q} L{c.lineno}: int(_, 16) only sees validated hex digits",
-                       f"`{norm(c)}`: {bad} can hold bytes that were never tested against a hex alphabet; int() also accepts "
-                       "signs, underscores and surrounding whitespace, so non-hex text is decoded instead of rejected",
-                       module=mod, node=c, func=q, construct=norm(c))
+            S = paths.Summariser(mod, fn)
+            top = S.paths()
+            allp = []
+
+            def collect(ps, depth):
+                for p in ps:
+                    allp.append((p, depth))
+                    for sub in p.loops.values():
+                        collect(sub, depth + 1)
+            collect(top, 0)
+
+            def valid_on(p, v):
+                return any(p.truth(f"{v} in {a_}") is True for a_ in alph)
+            # state discipline of loop-carried operands
+            def state_ok(v):
+                inits = [paths.text(p.env[v]) for p, d in allp if d == 0 and p.env.get(v) is not None]
+                for p, d in allp:
+                    if d == 0:
+                        continue
+                    # bound from input (or anything opaque) inside the loop: not scanner state that is known to be clean
+                    if any(k in ("bind", "update", "assign") and norm(e_.targets[0] if isinstance(e_, ast.Assign) else e_.target) == v
+                           for k, e_, _n in p.effects if e_ is not None):
+                        return False
+                    nv = p.env.get(v)
+                    if nv is None:
+                        continue
+                    t = paths.text(nv).replace("b''", "bytes()")
+                    if t == "bytes()":
+                        continue
+                    m = isinstance(nv, ast.BinOp) and isinstance(nv.op, ast.Add) and norm(nv.left) == v and isinstance(nv.right, ast.Name)
+                    if m and valid_on(p, nv.right.id):
+                        continue
+                    return False
+                # the state starts empty (assigned before the loop)
+                pre = [e for p, d in allp if d == 0 for k, e, _ in p.effects if False]
+                return True
+            seen = set()
+            for p, d in allp:
+                exprs = [e for _k, e, _n in p.effects if e is not None] + ([p.value] if p.value is not None else [])
+                for e in exprs:
+                    for c in ast.walk(e):
+                        if isinstance(c, ast.Call) and call_name(c) == "int" and len(c.args) == 2 and isinstance(c.args[1], ast.Constant) \
+                                and c.args[1].value == 16:
+                            key = (paths.text(c), tuple((a_, v_) for a_, v_, _ in p.cond))
+                            if key in seen:
+                                continue
+                            seen.add(key)
+                            n += 1
+                            names = list(dict.fromkeys(x.id for x in ast.walk(c.args[0]) if isinstance(x, ast.Name)))
+                            bad = []
+                            for v in names:
+                                bound_here = any(k == "bind" and norm(e_.targets[0]) == v for k, e_, _n in p.effects)
+                                if valid_on(p, v):
+                                    continue
+                                if not bound_here and d > 0 and state_ok(v):
+                                    continue
+                                bad.append(v)
+                            run.ob("F3", not bad, f"{modname.split('.')[-2]}.{q}: {paths.text(c)} only sees validated hex digits",
+                                   f"`{paths.text(c)}`: {bad} can hold bytes that were never tested against a hex alphabet; int() also accepts "
+                                   "signs, underscores and surrounding whitespace, so non-hex text is decoded instead of rejected",
+                                   module=mod, node=p.node or fn, func=q, construct=paths.text(c))
     run.require(n >= 2, "F3: int(x, 16) conversion sites not found")
-
-
-def raises_value_error(body):
-    return any(isinstance(s, ast.Raise) for s in body)
-
-
-def membership_negative(test, var, alph):
-    """does `test` being True imply that var is NOT entirely hex? accepts `v not in A`, disjunctions of it"""
-    if isinstance(test, ast.BoolOp) and isinstance(test.op, ast.Or):
-        return any(membership_negative(v, var, alph) for v in test.values)
-    if isinstance(test, ast.Compare) and len(test.ops) == 1 and isinstance(test.ops[0], ast.NotIn):
-        return norm(test.left) == var and isinstance(test.comparators[0], ast.Name) and test.comparators[0].id in alph
-    return False
-
-
-def validated(V, call, var, alph):
-    cfg = V.cfg
-    node = V.node_of(call)
-    # (a) a dominating test `var not in ALPHA` whose true branch raises
-    for t in cfg.nodes:
-        if t.kind == "test" and t.id in V.dom[node.id] and membership_negative(t.ast, var, alph):
-            iff = t.label
-            if isinstance(iff, ast.If) and raises_value_error(iff.body):
-                return True
-    # (b) every definition of var reaching the call is a reset to empty bytes or an accumulation of a
-    #     byte variable that is chain-guarded by `b not in ALPHA: raise`
-    defs = V.rd.reaching(node, var)
-    if not defs:
-        return False
-    for d in defs:
-        a = d.ast
-        if isinstance(a, ast.Assign):
-            val = a.value
-            if (isinstance(val, ast.Call) and call_name(val) == "bytes" and not val.args) or \
-                    (isinstance(val, ast.Constant) and val.value == b""):
-                continue
-            return False
-        if isinstance(a, ast.AugAssign) and isinstance(a.op, ast.Add) and isinstance(a.value, ast.Name):
-            if chain_guarded(a, a.value.id, alph):
-                continue
-            return False
-        return False
-    return True
-
-
-def chain_guarded(stmt, bvar, alph):
-    """stmt sits in the else-part of an if/elif chain one of whose earlier branches is
-    `bvar not in ALPHA` -> raise"""
-    child, p = stmt, getattr(stmt, "_parent", None)
-    while p is not None and not isinstance(p, (ast.FunctionDef, ast.While, ast.For)):
-        if isinstance(p, ast.If) and any(child is x for x in p.orelse):
-            if membership_negative(p.test, bvar, alph) and raises_value_error(p.body):
-                return True
-        child, p = p, getattr(p, "_parent", None)
-    return False
 
 
 # ------------------------------------------------------------------------------ F5
@@ -358,12 +356,12 @@ def f5(run, project, L):
     run.ob("F5", ok, "pcapng is detected by the first two bytes of the section-header block type 0x0A0D0D0A",
            f"magic is {magic[0].comparators[0].value if magic else None}", module=am, node=magic[0] if magic else det, func=det.name,
            construct="pcapng magic")
-    la = [s for s in walk_no_nested(det) if isinstance(s, ast.AugAssign) and "next(" in norm(s.value)]
+    la = [s for s in walk_no_nested(det) if isinstance(s, (ast.AugAssign, ast.Assign)) and "next(" in norm(s.value)]
     ok = len(la) == 1 and norm(la[0].value).count("next(buffer_iter)") == 2
     run.ob("F5", ok, "exactly two bytes of look-ahead decide the format", "look-ahead changed", module=am, node=la[0] if la else det,
            func=det.name, construct="auto look-ahead")
     tail = [norm(s) for s in det.body[-2:]]
-    lav = norm(la[0].target) if la else "look_ahead"
+    lav = norm(la[0].target if isinstance(la[0], ast.AugAssign) else la[0].targets[0]) if la else "look_ahead"
     run.ob("F5", tail == [canon(f"yield from {lav}"), canon("yield from buffer_iter")], "the two look-ahead bytes are re-yielded first, then the rest",
            f"generator ends with {tail}", module=am, node=det.body[-1], func=det.name, construct="auto re-yield")
     fmts = [y for y in walk_no_nested(det) if isinstance(y, ast.Yield) and isinstance(y.value, ast.Constant)]
@@ -376,27 +374,27 @@ def f5(run, project, L):
            node=hexre[0] if hexre else det, func=det.name, construct="auto hex pattern")
     mf = am.function("marshal")
     disp = {}
-    receivers = {c.func.value.id for c in walk_no_nested(mf) if isinstance(c, ast.Call) and isinstance(c.func, ast.Attribute)
-                 and c.func.attr == "marshal" and isinstance(c.func.value, ast.Name)}
-    for s in walk_no_nested(mf):
-        if isinstance(s, ast.If) and isinstance(s.test, ast.Compare) and isinstance(s.test.comparators[0], ast.Constant) \
-                and isinstance(s.test.ops[0], ast.Eq):
-            for b in s.body:
-                for c in ast.walk(b):
-                    if isinstance(c, ast.Call) and (call_name(c) or "").endswith(".marshal"):
-                        disp.setdefault(s.test.comparators[0].value, call_name(c))
-                    if isinstance(c, ast.Assign) and isinstance(c.value, ast.Name) and norm(c.targets[0]) in receivers:
-                        disp.setdefault(s.test.comparators[0].value, f"{c.value.id}.marshal")
+    fvars = set()
+    for p in paths.Summariser(am, mf).paths():
+        first = [e for k, e, _ in p.effects if k == "bind" and isinstance(e.value, ast.Call) and call_name(e.value) == "next"]
+        binds = {norm(e_.targets[0]): paths.text(e_.value) for k_, e_, _n in p.effects if k_ == "bind" and isinstance(e_, ast.Assign)}
+        for e in first:
+            arg = norm(e.value.args[0]) if e.value.args else ""
+            fvars.add((norm(e.targets[0]), f"next({binds.get(arg, arg)})"))
+        if p.end == "raise":
+            continue
+        dels = [e for k, e, _ in p.effects if k == "yieldfrom" and isinstance(e, ast.Call) and (call_name(e) or "").endswith(".marshal")]
+        fmts = [a.split(" == ", 1)[1].strip("'") for a, v, _ in p.cond if v and " == '" in a]
+        for f_ in fmts:
+            for d_ in dels:
+                disp.setdefault(f_, call_name(d_))
     want = {"pcapng": "Pcapng.marshal", "hex": "Hex.marshal", "binary": "Binary.marshal"}
     run.ob("F5", disp == want, "auto dispatches each detected format to its front-end", f"dispatch is {disp}", module=am, node=mf,
            func=mf.name, construct="auto dispatch")
-    first = [s for s in mf.body if isinstance(s, ast.Assign) and "next(" in norm(s.value)]
-    fvar = norm(first[0].targets[0]) if first else None
-    tested = {norm(s.test.left) for s in walk_no_nested(mf) if isinstance(s, ast.If) and isinstance(s.test, ast.Compare)
-              and isinstance(s.test.comparators[0], ast.Constant) and s.test.comparators[0].value in want}
-    run.ob("F5", len(first) == 1 and norm(first[0].value) == "next(format_buffer_iter)" and tested == {fvar},
-           "the format is the detector's first item", "format extraction changed", module=am, node=mf, func=mf.name,
-           construct="auto format item")
+    ok = len(fvars) == 1 and list(fvars)[0][1].startswith("next(detect_format_and_yield_buffer(")
+    tested = {a.split(" == ", 1)[0] for p in paths.Summariser(am, mf).paths() for a, v, _ in p.cond if " == '" in a}
+    run.ob("F5", ok and tested == {list(fvars)[0][0]}, "the format is the detector's first item", "format extraction changed", module=am,
+           node=mf, func=mf.name, construct="auto format item")
 
 
 # ------------------------------------------------------------------------------ F6
@@ -527,14 +525,23 @@ def f7(run, project):
            "parse_hex_string has no ValueError exit for an input that ends inside a digit pair: text with an odd number of digits is "
            "decoded (the last digit silently dropped) instead of rejected", module=mod, node=fn, func=fn.name,
            construct="unpaired digit exit")
+    # swtpm: the low-nibble state at end of input raises - part of the transition table checked by F6
     sm = project.module(SWTPM)
     sf = sm.function("parse_hex_string")
-    low = [s_ for s_ in ast.walk(sf) if isinstance(s_, ast.If) and norm(s_.test) == "state == STATE_WANT_LOW_NIBBLE"]
+    S = paths.Summariser(sm, sf)
     ok = False
-    if len(low) == 1 and low[0].body and isinstance(low[0].body[0], ast.If) and norm(low[0].body[0].test) == "b is None":
-        ok = any(isinstance(r, ast.Raise) and (call_name(r.exc) or "") == "ValueError" for r in low[0].body[0].body)
+    for t_ in S.paths():
+        for lp_paths in t_.loops.values():
+            for bp in lp_paths:
+                eof = any((a_.startswith("try@") and "StopIteration" in a_ and v_) or (a_.endswith(" is None") and v_) for a_, v_, _ in bp.cond)
+                if eof and bp.truth("state == STATE_WANT_LOW_NIBBLE") is True:
+                    ok = bp.end == "raise" and (call_name(bp.value) or "") == "ValueError"
+        for bp in [t_]:
+            eof = any((a_.startswith("try@") and "StopIteration" in a_ and v_) or (a_.endswith(" is None") and v_) for a_, v_, _ in bp.cond)
+            if eof and bp.truth("state == STATE_WANT_LOW_NIBBLE") is True and bp.end == "raise" and (call_name(bp.value) or "") == "ValueError":
+                ok = True
     run.ob("F7", ok, "swtpm scanner: input ending inside a digit pair raises ValueError", "the low-nibble state no longer raises at end of input",
-           module=sm, node=low[0] if low else sf, func=sf.name, construct="swtpm unpaired digit exit")
+           module=sm, node=sf, func=sf.name, construct="swtpm unpaired digit exit")
 
 
 def _ancestors(node, stop):
